@@ -187,6 +187,21 @@ Section Plan.
         rewrite Hg1, andb_true_r. eapply guards_mono; [exact Hg|lia].
   Qed.
 
+  Lemma phase1_all_guards : forall ts, forallb (guard_ok 0) (phase1_all auth ts) = true.
+  Proof. induction ts as [|t ts IH]; cbn [phase1_all forallb guard_ok act_ref ref_ok andb]; auto. Qed.
+
+  (* the calls of the declaration route (resolveResolvables) refer to the context's loader and to the type-set
+     loaders the same call has made *)
+  Theorem compile_decl_scoped ts : scoped 0 (compile_decl auth ts) = true.
+  Proof.
+    unfold compile_decl. destruct (phase2 auth 0 ts) as [a b] eqn:E. cbn [fst snd].
+    destruct (phase2_ok ts 0 a b E) as [Hs Hg]. cbn [Nat.add] in Hg.
+    pose proof (phase1_all_guards ts) as H1.
+    rewrite scoped_app, (guards_scoped _ 0 0 H1 ltac:(lia)), (guards_nodes _ _ H1). cbn [andb Nat.add].
+    rewrite scoped_app, Hs. cbn [andb Nat.add].
+    eapply guards_scoped; [exact Hg|lia].
+  Qed.
+
   Theorem compile_scoped ts : scoped 0 (compile auth ts) = true.
   Proof.
     unfold compile. destruct (phase2 auth 0 ts) as [a b] eqn:E. cbn [fst snd].
